@@ -59,6 +59,20 @@ def run(ck):
               lambda: "; ".join("%s [%s]" % (chain(mu), ", ".join("%s %s (depth %d)" % (("parameter" if t[0] == "P" else "module-level object"), t[1], t[2])
                                                                    for t in sorted(tags, key=str))) for mu, tags in muts)[:900],
               sample=True)
+    # P1 (hidden state): a container that outlives a call makes a repeated fit depend on the fits before it
+    from ..structural import hidden_state
+    fit_keys = set()
+    for f in funcs:
+        fit_keys |= cg.reachable([f])
+    fit_funcs = [cg.funcs[k] for k in sorted(fit_keys) if k in cg.funcs]
+    fit_classes = {id(g.cls): g.cls for g in fit_funcs if g.cls is not None}
+    fit_mods = {g.module.name for g in funcs}
+    for c in repo.all_classes():
+        if c.module.name in fit_mods:
+            fit_classes[id(c)] = c
+    hs = hidden_state(repo, functions=fit_funcs, classes=list(fit_classes.values()))
+    ck.ob("P1", "fitting code", "no container outlives a fit (no mutable default argument, no mutable class-level default)", "pyvaporation/optimizer/",
+          not hs, "; ".join("%s %s" % x for x in hs)[:600])
     # P2
     for f in funcs:
         reach = cg.reachable([f])
